@@ -92,6 +92,16 @@ prop("C20", True,
      "condition-contradiction (dead send) detection + sibling-constructor cross-check + iterator-invalidation rule + shape rules over go/ssa",
      "DESIGN.md §2 C20")
 
+prop("C16", True,
+     "Static cross-checks for all message sequences: receive/send type tables mutually inverse over the 7 message types; per message type the ordered encoder-operation sequence of MarshalBinary equals the decoder-operation "
+     "sequence of UnmarshalBinary (kind, field, loop) and every writing marshaller flushes before returning the bytes (sibling rule); primitives agree (16-bit length prefix, tags 6/17, ip then port); address roles "
+     "(local values fill local slots, remote fill remote; Get(local, remote)); Connections.Get matches both addresses as separate comparisons and returns the compared element, nil only after the scan, all list methods locked; "
+     "session loop delivers data only to the looked-up non-nil connection, EOF deletes+closes only it, deferred cleanup closes the rest; agentConnection.Read drops exactly the copied prefix under the mutex, receive appends under it. "
+     "Does not decide ordering across goroutines or libdisco framing.",
+     "Trusts libdisco's message framing (Read counts ignored in conn2.receive) and honeytrap/protocol's integer encoders.",
+     "sibling cross-check of encode/decode tables and operation sequences + role/provenance + dominating-condition rules over go/ssa",
+     "DESIGN.md §2 C16")
+
 PENDING = {
  "C01": "check not built yet in this revision (design: DESIGN.md §2 C01)",
 }
